@@ -432,11 +432,14 @@ def rule_r4(ctx) -> RuleResult:
 
 
 def rule_r5(ctx) -> RuleResult:
-    rr = RuleResult("C04.R5", "#if/#ifeq/#switch results are trimmed on every return", min_instances=7)
+    rr = RuleResult("C04.R5", "#if/#ifeq/#switch results are trimmed on every return", min_instances=3)  # at least one return per function
     for f in ("if_fn", "ifeq_fn", "switch_fn"):
         dotted = "parserfns." + f
         fn = ctx.fn(dotted)
-        for r in [n for n in walk_no_nested(fn) if isinstance(n, ast.Return)]:
+        rets = [n for n in walk_no_nested(fn) if isinstance(n, ast.Return)]
+        if not rets:
+            raise AnalysisError(dotted + ": no return statement found")
+        for r in rets:
             v = r.value
             ok = False
             if v is None:
